@@ -418,6 +418,11 @@ func checkC19(c c19Case) verdict {
 		if status < 100 || status > 599 {
 			return bad(true, labels, "request %d: status %d", i, status)
 		}
+		// Whatever the body was: a 2xx answer of a POST endpoint carries that endpoint's result. An error description under a
+		// success status does not distinguish success from failure.
+		if known != "" && h.Method == "POST" && status >= 200 && status < 300 && !successPayload(known, rb) {
+			return bad(true, append(labels, "success-status-without-result"), "request %d: POST %s (%s) answered %d %s; the status claims success but the answer is not the endpoint's result (request body %s)", i, h.Path, class, status, trunc(string(rb), 160), trunc(string(body), 200))
+		}
 	}
 	if !sv.alive() {
 		return bad(true, labels, "the server process died: %s", tailStr(sv.stderr.String(), 800))
@@ -490,7 +495,7 @@ var c19Main = newPart("C19", "hostile-histories",
 	checkC19)
 
 var jsonValues = []string{"null", "true", "false", "0", "1", "-1", "1.5", "1e3", "1e400", "-1e400", "9007199254740992", "-9007199254740993", "9223372036854775807", "9223372036854775808", "-9223372036854775808", "-9223372036854775809",
-	"18446744073709551615", "18446744073709551616", "4294967296", "3000000", "\"\"", "\" \"", "\"\\t\\n\"", "\"x\"", "\"\\u0000\"", "[]", "[1]", "{}", "{\"a\":1}", "\"OCRA-1:HOTP-SHA1-6:QN08\"", "\"18446744073709551615\""}
+	"18446744073709551615", "18446744073709551616", "4294967296", "3000000", "\"\"", "\" \"", "\"\\t\\n\"", "\"x\"", "\"\\u0000\"", "[]", "[1]", "{}", "{\"a\":1}", "\"OCRA-1:HOTP-SHA1-6:QN08\"", "\"18446744073709551615\"", "\"TOTP\"", "\"steam\"", "\"totp \"", "\"hotp\"", "\"SHA384\"", "\"7\"", "\"sha1\""}
 
 var hostilePaths = []string{"/nope", "/totp", "/totp/generate/x", "/totp/generat", "/ocra", "/otp", "/TOTP/GENERATE", "/totp/generate/", "//totp/generate", "/totp%2Fgenerate", "/totp/generate%00", "/./totp/generate", "/totp/../totp/generate",
 	"/docs", "/docs/", "/docs/index.html", "/docs/doc.json", "/docs/nope", "/?x=1", "/otp/secret?algorithm=SHA999", "/otp/secret?algorithm=" + strings.Repeat("A", 3000), "/" + strings.Repeat("a", 4000), "/favicon.ico", "*"}
@@ -1167,6 +1172,147 @@ func TestC19_DiscoveredParameters(t *testing.T) {
 	c19Param.rec().Exhaustive()
 }
 
+
+// ---------------------------------------------------------------------------
+// Paths near what the router knows. The router's own path literals are the dictionary: each literal, cut short, extended by a
+// character or a word, with and without its trailing slash, and glued in front of every endpoint — a versioned prefix
+// ("/v1" + route), an alias, a mount point are written as string literals, and the slips are at their edges (a prefix test
+// that is not the prefix that is stripped).
+
+type c19PathCase struct {
+	Method string `json:"method"`
+	Path   string `json:"path"`
+	Ep     string `json:"ep"` // endpoint whose well-formed body is sent with a POST ("" = {})
+}
+
+var pathLitRe = regexp.MustCompile(`"(/[A-Za-z0-9_/.\-]{0,60})"`)
+
+func discoveredPaths() []string {
+	repo := os.Getenv("VERIF_REPO")
+	if repo == "" {
+		repo = "/repo"
+	}
+	files, _ := filepath.Glob(filepath.Join(repo, "internal", "app", "api", "*.go"))
+	more, _ := filepath.Glob(filepath.Join(repo, "internal", "app", "cmd", "*.go"))
+	set := map[string]bool{}
+	for _, fn := range append(files, more...) {
+		if strings.HasSuffix(fn, "_test.go") {
+			continue
+		}
+		b, err := os.ReadFile(fn)
+		if err != nil {
+			continue
+		}
+		for _, m := range pathLitRe.FindAllSubmatch(b, -1) {
+			set[string(m[1])] = true
+		}
+	}
+	var out []string
+	for k := range set {
+		out = append(out, k)
+	}
+	sort.Strings(out)
+	return out
+}
+
+func checkC19Path(c c19PathCase) verdict {
+	sv := server()
+	labels := []string{"method=" + c.Method}
+	var body []byte
+	if c.Method == "POST" {
+		body = []byte("{}")
+		if c.Ep != "" {
+			body, _ = json.Marshal(baseBody(c.Ep))
+		}
+	}
+	status, rb, err := rawHTTP(sv.addr, c.Method, c.Path, body, 5*time.Second)
+	if err != nil {
+		status, rb, err = rawHTTP(sv.addr, c.Method, c.Path, body, 15*time.Second)
+		if err != nil {
+			if !sv.alive() {
+				return bad(true, labels, "%s %s got no HTTP response (%v) and the server process died: %s", c.Method, c.Path, err, tailStr(sv.stderr.String(), 800))
+			}
+			hang("C19", "discovered-paths", c, recorders["C19/discovered-paths"], fmt.Sprintf("%s %s got no complete HTTP response within 5 s and again within 15 s: %v", c.Method, c.Path, err))
+		}
+		labels = append(labels, "slow-once")
+	}
+	if status < 100 || status > 599 {
+		return bad(true, labels, "%s %s: status %d", c.Method, c.Path, status)
+	}
+	if len(rb) >= c19MaxAnswer {
+		return bad(true, labels, "%s %s is answered with %d bytes", c.Method, c.Path, len(rb))
+	}
+	if !sv.alive() {
+		return bad(true, labels, "after %s %s the server process died: %s", c.Method, c.Path, tailStr(sv.stderr.String(), 800))
+	}
+	if sv.stderr.alarm() {
+		return bad(true, labels, "the server reports an unrecovered panic, a fatal error or a data race: %s", trunc(sv.stderr.String(), 1500))
+	}
+	labels = append(labels, fmt.Sprintf("status=%dxx", status/100))
+	return ok(true, labels...)
+}
+
+var c19Path = newPart("C19", "discovered-paths",
+	"enumeration: path literals taken from the REST layer's own source (routes, prefixes, mount points) x {as written, without / with a trailing slash, cut after every character, extended by x / 0 / beta / beta/x / %2F, glued in front of every endpoint with and without the joining slash} x {GET, POST with the endpoint's well-formed body}; invariant: a complete HTTP response (one lone retry with 15 s), a status 100..599, an answer below 1 MiB, the process alive and no unrecovered panic, every 25th request followed by the RFC probe; the status itself is free (a new alias may legitimately exist); every case distinct and non-trivial",
+	checkC19Path)
+
+func TestC19_DiscoveredPaths(t *testing.T) {
+	defer c19Path.rec().Flush()
+	lits := discoveredPaths()
+	c19Path.rec().Set("path_literals", strings.Join(lits, " "))
+	seen := map[string]bool{}
+	i := 0
+	run := func(path, ep string) {
+		if len(path) == 0 || path[0] != '/' || seen[path+"|"+ep] {
+			return
+		}
+		seen[path+"|"+ep] = true
+		for _, m := range []string{"GET", "POST"} {
+			i++
+			if !ev.Mine(i) {
+				continue
+			}
+			c19Path.each(t, c19PathCase{Method: m, Path: path, Ep: ep})
+			if i%25 == 0 {
+				sv := server()
+				if st, pb, perr := rawHTTP(sv.addr, "POST", "/hotp/generate", []byte(`{"secret":"GEZDGNBVGY3TQOJQGEZDGNBVGY3TQOJQ","counter":1,"digits":"6","algorithm":"SHA1"}`), 5*time.Second); perr != nil || st != 200 || !strings.Contains(string(pb), `"287082"`) {
+					t.Fatalf("C19/discovered-paths: probe after %d requests: status %d body %s err %v", i, st, trunc(string(pb), 200), perr)
+				}
+			}
+		}
+	}
+	eps := []string{"totp-gen", "totp-val", "hotp-gen", "hotp-val", "ocra-gen", "ocra-val", "suite", "url"}
+	for _, l := range lits {
+		bare := strings.TrimRight(l, "/")
+		for _, v := range []string{l, bare, bare + "/", bare + "x", bare + "0", bare + "beta", bare + "beta/x", bare + "%2F", bare + "//", bare + "/x", bare + "/."} {
+			run(v, "")
+		}
+		for k := 1; k < len(l); k++ {
+			run(l[:k], "")
+		}
+		known := false
+		for _, p := range postEndpoints {
+			known = known || p == l
+		}
+		for _, p := range getEndpoints {
+			known = known || p == l
+		}
+		if known || strings.Count(l, "/") > 2 {
+			continue // prefixes are short; routes themselves are not glued in front of each other
+		}
+		for _, ep := range eps {
+			route := postEndpoints[ep]
+			for _, v := range []string{bare + route, bare + "/" + route, bare + "x" + route, bare + "0" + route, bare + route + "/", l + strings.TrimPrefix(route, "/")} {
+				run(v, ep)
+			}
+		}
+		for _, route := range getEndpoints {
+			run(bare+route, "")
+			run(bare+"0"+route, "")
+		}
+	}
+	c19Path.rec().Exhaustive()
+}
 
 // ---------------------------------------------------------------------------
 // Compressed request bodies. The service bounds the work per request by its 1 MiB body limit. If it accepts a
